@@ -35,6 +35,7 @@ type c03Case struct {
 	Input   string     `json:"input"`
 	History []c03Event `json:"history"`
 	Prefix  int        `json:"prefix,omitempty"` // bytes of another file placed before the input in the file set
+	Long    bool       `json:"long,omitempty"`   // long-input workload: larger call / render budgets
 }
 
 type c03Prop struct{}
@@ -60,9 +61,9 @@ func (*c03Prop) Components() map[string]interface{} {
 
 func (*c03Prop) Plans(tier string) []Plan {
 	if tier == "quick" {
-		return []Plan{{Name: "dag", Workers: 12, Runs: 40000, MaxTime: 45e9, Size: 14}, {Name: "shared-consumers", Variant: 1, Workers: 4, Runs: 40000, MaxTime: 45e9, Size: 14}}
+		return []Plan{{Name: "dag", Workers: 10, Runs: 40000, MaxTime: 45e9, Size: 14}, {Name: "shared-consumers", Variant: 1, Workers: 3, Runs: 40000, MaxTime: 45e9, Size: 14}, {Name: "long-inputs", Variant: 2, Workers: 3, Runs: 450, MaxTime: 45e9, Size: 14}}
 	}
-	return []Plan{{Name: "dag", Workers: 12, Runs: 4000000, MaxTime: 600e9, Size: 24}, {Name: "dag-small", Workers: 4, Runs: 4000000, MaxTime: 300e9, Size: 8}, {Name: "shared-consumers", Variant: 1, Workers: 4, Runs: 4000000, MaxTime: 600e9, Size: 20}}
+	return []Plan{{Name: "dag", Workers: 10, Runs: 4000000, MaxTime: 600e9, Size: 24}, {Name: "long-inputs", Variant: 2, Workers: 6, Runs: 4000000, MaxTime: 600e9, Size: 14}, {Name: "dag-small", Workers: 4, Runs: 4000000, MaxTime: 300e9, Size: 8}, {Name: "shared-consumers", Variant: 1, Workers: 4, Runs: 4000000, MaxTime: 600e9, Size: 20}}
 }
 
 func randPerm(r *Rand, n int) []int {
@@ -122,6 +123,58 @@ func sharedConsumerGrammar(r *Rand) *Grammar {
 	return g
 }
 
+// longInputGrammar: k alternatives "item* terminator" sharing one memoised item parser,
+// so positions cached early are asked again after thousands of later positions were
+// cached (size-dependent behaviour of the cache: thresholds, eviction, growth).
+func longInputGrammar(r *Rand) (*Grammar, func(n int) string) {
+	g := &Grammar{}
+	add := func(n GNode) int { g.Nodes = append(g.Nodes, n); return len(g.Nodes) - 1 }
+	var item int
+	var unit []string
+	switch r.Intn(4) {
+	case 0:
+		item = add(GNode{Op: "rune", Arg: "a", Memo: true})
+		unit = []string{"a"}
+	case 1:
+		item = add(GNode{Op: "choice", Kids: []int{add(GNode{Op: "op", Arg: "ab"}), add(GNode{Op: "rune", Arg: "a"})}, Memo: true})
+		unit = []string{"ab", "a"}
+	case 2:
+		item = add(GNode{Op: "any", Kids: []int{add(GNode{Op: "rune", Arg: "a"}), add(GNode{Op: "rune", Arg: "b"})}, Memo: true})
+		unit = []string{"a", "b"}
+	default:
+		item = add(GNode{Op: "seq", Kids: []int{add(GNode{Op: "rune", Arg: "a"}), add(GNode{Op: "rune", Arg: "b"})}, Memo: true})
+		unit = []string{"ab"}
+	}
+	terms := []string{"x", "y", "z"}
+	k := r.Range(2, 3)
+	var alts []int
+	for i := 0; i < k; i++ {
+		rep := "many"
+		if r.Chance(1, 4) {
+			rep = "many1"
+		}
+		m := add(GNode{Op: rep, Kids: []int{item}, Memo: r.Chance(1, 3)})
+		alts = append(alts, add(GNode{Op: "seq", Kids: []int{m, add(GNode{Op: "rune", Arg: terms[i]})}}))
+	}
+	top := "any"
+	if r.Chance(1, 3) {
+		top = "choice"
+	}
+	g.Root = add(GNode{Op: top, Kids: alts})
+	last := terms[r.Intn(k)]
+	if r.Chance(1, 5) {
+		last = "q" // no alternative matches
+	}
+	return g, func(n int) string {
+		var sb strings.Builder
+		for i := 0; i < n; i++ {
+			sb.WriteString(unit[r.Intn(len(unit))])
+		}
+		sb.WriteString(last)
+		return sb.String()
+	}
+}
+
 func (*c03Prop) Gen(r *Rand, pl *Plan) Case {
 	size := pl.Size
 	if size <= 0 {
@@ -129,6 +182,20 @@ func (*c03Prop) Gen(r *Rand, pl *Plan) Case {
 	}
 	c := &c03Case{}
 	alphabet := "ab"
+	if pl.Variant == 2 {
+		var mk func(int) string
+		c.G, mk = longInputGrammar(r)
+		c.Long = true
+		c.Input = mk([]int{300, 1030, 1100, 2100, 3300, 4200}[r.Intn(6)] + r.Intn(50))
+		c.Prefix = genPrefix(r)
+		n := len(c.G.Nodes)
+		for i := 0; i < 2; i++ {
+			c.History = append(c.History, c03Event{Kind: "plain", Order: randPerm(r, n), MapSeed: r.U64()})
+			c.History = append(c.History, c03Event{Kind: "memo", Order: randPerm(r, n), Churn: r.Intn(5), MapSeed: r.U64(), Identity: r.Chance(1, 6)})
+		}
+		c.History = append(c.History, c03Event{Kind: "memo", Order: randPerm(r, n), MapSeed: r.U64()})
+		return c
+	}
 	if pl.Variant == 1 {
 		c.G = sharedConsumerGrammar(r)
 		alphabet = "abcd"
@@ -137,10 +204,13 @@ func (*c03Prop) Gen(r *Rand, pl *Plan) Case {
 			c.Input = c.G.genInput(r, alphabet, 10)
 		}
 	} else {
-		c.G = genGrammar(r, &genOpts{MaxNodes: r.Range(3, size), Alphabet: alphabet, Trims: r.Chance(2, 3), MemoChance: r.Range(15, 70), Names: r.Chance(1, 2)})
+		c.G = genGrammar(r, &genOpts{MaxNodes: r.Range(3, size), Alphabet: alphabet, Trims: r.Chance(2, 3), MemoChance: r.Range(15, 70), Names: r.Chance(1, 2), Rich: r.Chance(1, 5)})
 		maxLen := 8
 		if size > 14 {
 			maxLen = 16
+		}
+		if hasRich(c.G) {
+			maxLen = 24
 		}
 		if r.Chance(1, 4) {
 			// Sentence root: whole-input matching with its early exit on the first result reaching EOF
@@ -217,8 +287,12 @@ type guardState struct {
 	memoInner        int
 }
 
-func newGuard() *guardState {
-	return &guardState{maxDepth: 600, maxCal: 60000, maxList: 96, once: map[[2]int]int{}, outerCalls: map[int]int{}}
+func newGuard(long bool) *guardState {
+	g := &guardState{maxDepth: 600, maxCal: 60000, maxList: 96, once: map[[2]int]int{}, outerCalls: map[int]int{}}
+	if long {
+		g.maxCal = 600000
+	}
+	return g
 }
 
 type guardP struct {
@@ -315,11 +389,15 @@ func newCtx(input string, prefix int) *parsley.Context {
 }
 
 // parseOnce builds the grammar and parses the input on a fresh context.
-func c03ParseOnce(g *Grammar, input string, prefix int, memo bool, e *c03Event, shim bool) (o c03Obs) {
+func c03ParseOnce(g *Grammar, input string, prefix int, memo bool, e *c03Event, shim bool, long bool) (o c03Obs) {
 	defer func() {
 		if r := recover(); r != nil {
 			if d, ok := r.(discard); ok {
 				o.discard = d.why
+				return
+			}
+			if hasRich(g) {
+				o.discard = "literal-parser-panic"
 				return
 			}
 			panic(r)
@@ -327,12 +405,16 @@ func c03ParseOnce(g *Grammar, input string, prefix int, memo bool, e *c03Event, 
 	}()
 	sim.SetMapSeed(e.MapSeed, e.Identity)
 	churn(e.Churn)
-	st := newGuard()
+	st := newGuard(long)
 	b := build(g, &buildOpts{Memo: memo, Order: e.Order, CloneBeforeRTrim: shim, Wrap: guardWrap(st, memo)})
 	ctx := newCtx(input, prefix)
 	n, _, err := b.Root.Parse(ctx, data.EmptyIntMap, ctx.Reader().Pos(0))
 	var over bool
-	o.res, over = renderNode(n, 1<<15)
+	budget := 1 << 15
+	if long {
+		budget = 1 << 21
+	}
+	o.res, over = renderNode(n, budget)
 	if over {
 		o.discard = "render-budget"
 		return
@@ -370,11 +452,11 @@ func c03Judge(c *c03Case, shim bool, v *Verdict) (class, detail string) {
 		e := &c.History[i]
 		switch e.Kind {
 		case "other":
-			o := c03ParseOnce(e.G, e.Input, 0, true, e, shim)
+			o := c03ParseOnce(e.G, e.Input, 0, true, e, shim, false)
 			_ = o
 			v.Probes["other_grammar_parses"]++
 		case "plain":
-			o := c03ParseOnce(c.G, c.Input, c.Prefix, false, e, shim)
+			o := c03ParseOnce(c.G, c.Input, c.Prefix, false, e, shim, c.Long)
 			if o.discard != "" {
 				return "discard", o.discard
 			}
@@ -385,7 +467,7 @@ func c03Judge(c *c03Case, shim bool, v *Verdict) (class, detail string) {
 				return "determinism:plain", fmt.Sprintf("two parses of the un-memoised build differ:\n  first: %s calls=%d\n  later: %s calls=%d", clip(plain.visible()), plain.calls, clip(o.visible()), o.calls)
 			}
 		case "memo":
-			o := c03ParseOnce(c.G, c.Input, c.Prefix, true, e, shim)
+			o := c03ParseOnce(c.G, c.Input, c.Prefix, true, e, shim, c.Long)
 			if o.discard != "" {
 				return "discard", o.discard
 			}
